@@ -21,7 +21,7 @@ pub fn prop() -> Prop {
                connects advertising v, the announcing housekeep runs, the scheduled delay is read and compared (1 s, or strictly below the smallest advertised \
                timeout); (b) 3-node meshes with every timeout triple from the grid run for 3x the largest timeout: nobody is ever disconnected; (c) one node of a \
                3-mesh silenced from second t, for every t in 0..=200 (equal and different timeouts of waiting and silent node): removed with its routes at the first housekeep after last refresh + timeout, then re-dialled; \
-               (d) one unreachable configured peer for 48 h: dial gaps <= 3600 s and dialling never stops. non-trivial = node reached the announcing housekeep",
+               (c2) the same silence in a learning switch mesh without claims: routes learned from the silent node go at the tick that removes it; (d) one unreachable configured peer for 48 h: dial gaps <= 3600 s and dialling never stops. non-trivial = node reached the announcing housekeep",
         run,
         replay,
     }
